@@ -989,6 +989,26 @@ fn gen_c17(t: &mut Tape, labels: &mut Vec<&'static str>) -> Option<CliCase> {
         case.files.insert("sub/.styluaignore".into(), b"inner.lua\n".to_vec());
     }
     let opts = gen_optcfg(t, true);
+    // configuration files: in the working directory and / or above it
+    case.cwd = "proj/work".to_string();
+    for f in ["other.lua", "sub/inner.lua", ".styluaignore", "sub/.styluaignore"] {
+        if let Some(v) = case.files.remove(f) {
+            case.files.insert(format!("proj/work/{f}"), v);
+        }
+    }
+    if t.chance(70) {
+        let mut o = gen_optcfg(t, false);
+        o.column_width = Some(47);
+        case.files.insert("proj/work/stylua.toml".into(), o.to_toml().into_bytes());
+        labels.push("toml:cwd");
+    }
+    if t.chance(70) {
+        let mut o = gen_optcfg(t, false);
+        o.column_width = Some(53);
+        case.files.insert("proj/.stylua.toml".into(), o.to_toml().into_bytes());
+        labels.push("toml:parent");
+    }
+    let search_parents = t.chance(100);
     let k = t.pick(50);
     let stdin: Vec<u8> = match t.pick(12) {
         0 | 1 | 2 => messy_program(k).into_bytes(),
@@ -1052,6 +1072,10 @@ fn gen_c17(t: &mut Tape, labels: &mut Vec<&'static str>) -> Option<CliCase> {
     if t.chance(40) {
         argv.push("--no-editorconfig".into());
     }
+    if search_parents {
+        argv.push("--search-parent-directories".into());
+        labels.push("search-parent-directories");
+    }
     argv.push("-".into());
     case.argv = argv;
     case.stdin = Some(stdin);
@@ -1060,7 +1084,17 @@ fn gen_c17(t: &mut Tape, labels: &mut Vec<&'static str>) -> Option<CliCase> {
 
 fn c17_oracle(case: &CliCase, run: &CliRun) -> Verdict {
     let args = parse_args(&case.argv);
-    let config = args.opts.apply(sl::Config::default());
+    let (dir, name) = match &args.stdin_filepath {
+        Some(p) => {
+            let rel = join_rel(&case.cwd, p);
+            match rel.rsplit_once('/') {
+                Some((d, n)) => (d.to_string(), n.to_string()),
+                None => (String::new(), rel),
+            }
+        }
+        None => (case.cwd.clone(), "*.lua".to_string()),
+    };
+    let Some(config) = resolve_config(case, &args, &dir, &name) else { return Verdict::Skip("model cannot resolve the configuration") };
     let input = case.stdin.clone().unwrap_or_default();
     if let Some(d) = tree_unchanged(run) {
         return Verdict::Fail(format!("stdin mode changed the file system: {d}"));
@@ -1132,7 +1166,7 @@ pub static C17: CliProp = CliProp {
     quick_cases: 16_000,
     thorough_cases: 300_000,
     tape_len: 400,
-    assumptions: &["configuration files are absent (C15 covers the configuration search for stdin)", "--stdin-filepath values are relative paths"],
+    assumptions: &["configuration files appear only as stylua.toml in the working directory and .stylua.toml in its parent (C15 covers the full configuration search)", "--stdin-filepath values are relative paths"],
     extra: None,
     exclude: None,
 };
@@ -2117,6 +2151,8 @@ const MALFORMED: [(&str, &str); 30] = [
 ];
 
 fn c20_extra(rep: &mut crate::run::Reporter, stats: &mut crate::run::Stats, _tier: crate::run::Tier) {
+    // the whole listed space is executed on every run
+    stats.exhaustive = true;
     let carriers = c20_carriers();
     let results = crate::engine::par_map(&carriers, |_, c| {
         let run = crate::cli::run_cli(&c.case);
